@@ -22,14 +22,7 @@ def native_layout(layout_row, data_row, table='element'):
     # the obligation quantifies over every data row of the printed layout: the solver's data row first, then rows of the same
     # printed form with other digits and signs (a misplaced column boundary shows in the numbers only for some digits)
     def variants(row):
-        yield row
-        for digits, sign in (('7391', '-'), ('1', ' '), ('9', '-'), ('2468', ' ')):
-            out, k = list(row), 0
-            for j in range(f0, len(row)):
-                if (j - f0) % w == 0: out[j] = sign
-                elif row[j].isdigit() and row[j - 1] != ' ' and not (row[j] == '0' and row[j + 1: j + 2] == '.'):
-                    out[j] = digits[k % len(digits)]; k += 1
-            yield ''.join(out)
+        for (r,) in _row_variants([row], f0, w): yield r
     for row in variants(data_row):
         bad = []
         key = tab.key_from_line(row)
@@ -64,18 +57,7 @@ def native_table_whole(rows, table='element'):
     from mulgrids import fix_blockname
     cols, keys, f0, w = {'element': (['P', 'T', 'SG'], [1], 12, 12), 'connection': (['FLOH', 'FLOH/FLOF', 'FLOF'], [3, 10], 21, 13)}[table]
     def table_lines(rs): return HEAD[table] + list(rs) + ['', ' ' + '@' * 100, '']
-    def variants(pair):
-        yield pair
-        for digits, sign in (('7391', '-'), ('1', ' '), ('9', '-'), ('2468', ' ')):
-            outs = []
-            for row in pair:
-                out, k = list(row), 0
-                for j in range(f0, len(row)):
-                    if (j - f0) % w == 0: out[j] = sign
-                    elif row[j].isdigit() and row[j - 1] != ' ' and not (row[j] == '0' and row[j + 1: j + 2] == '.'):
-                        out[j] = digits[k % len(digits)]; k += 1
-                outs.append(''.join(out))
-            yield outs
+    def variants(pair): return _row_variants(pair, f0, w)
     for later in variants(rows[2:]):
         first = table_lines(rows[:2])
         text = '\n'.join(first + table_lines(later)) + '\n'
@@ -107,7 +89,31 @@ def native_table_whole(rows, table='element'):
     return True, 'cells are the printed numbers (row format %r)' % (tab.row_format,)
 
 
+def _row_variants(pair, f0, w, sign_col=0):
+    """the solver's rows, then rows of the same printed form with other digits (signs kept, then set): a misplaced boundary or a
+    lost sign shows in the numbers only for some digits (the solver's default digits are all 0)"""
+    yield list(pair)
+    for digits, sign in (('7391', None), ('7391', '-'), ('1', ' '), ('9', '-'), ('2468', ' ')):
+        outs = []
+        for row in pair:
+            out, k = list(row), 0
+            for j in range(f0, len(row)):
+                if (j - f0) % w == sign_col:
+                    if sign is not None: out[j] = sign
+                elif row[j].isdigit() and row[j - 1] != ' ' and not (row[j] == '0' and row[j + 1: j + 2] == '.'):
+                    out[j] = digits[k % len(digits)]; k += 1
+            outs.append(''.join(out))
+        yield outs
+
+
 def native_table_whole_autough2(rows):
+    for later in _row_variants(rows[2:], 13, 13, sign_col=1):
+        ok, detail = _native_table_whole_autough2(list(rows[:2]) + later)
+        if not ok: return ok, detail
+    return ok, detail
+
+
+def _native_table_whole_autough2(rows):
     """the real setup_table_AUTOUGH2 on the first two rows, read_table_AUTOUGH2 / skip_table_AUTOUGH2 on the later two"""
     import io
     from t2listing import t2listing
